@@ -1,4 +1,5 @@
 import UsualProofs.C15.Runs
+import UsualProofs.C15.MultiList
 /-! Concrete values used by the non-vacuity examples of UsualProofs/Props/C15.lean. -/
 namespace UsualProofs.C15.Examples
 open Usual.C15 UsualProofs.C15 UsualProofs.C15.Runs
@@ -42,5 +43,18 @@ theorem exS_valid : SValid 96 0 [] exS := by
 
 /-- head at 10, nodes at 26, 58 appended, then node 42 prepended -/
 def exM : Mem := prepend (append (append (init emptyMem 10) 10 26) 10 58) 10 42
+
+/-- two NULL-terminated runs in one store: 5 → 7 → NULL and 6 → 8 → NULL -/
+def exRuns : DL :=
+  DList.setNext (DList.setNext (DList.setNext (DList.setNext DList.empty 5 7) 7 0) 6 8) 8 0
+
+/-- an interleaving on three lists (heads 1, 2, 3) -/
+def exMulti : List Multi.MOp :=
+  [.app 1 5, .app 2 6, .pre 1 8, .app 2 7, .app 3 10, .putAfter 2 6 9, .pop 3, .sort 1, .rem 1 5, .app 1 5,
+   .putBefore 2 6 11, .rem 2 11]
+
+theorem exMulti_valid : Multi.MValid (leKey exKey) [1, 2, 3] 9 (fun _ => []) exMulti := by
+  apply Multi.MValidB_valid
+  decide +kernel
 
 end UsualProofs.C15.Examples
